@@ -1290,7 +1290,30 @@ impl<'g, 'r> ProgGen<'g, 'r> {
                 *g.pick(&[0, 1, 11, 12, 40])
             }
         };
-        match self.g.below(12) {
+        match self.g.below(15) {
+            12 | 13 => {
+                // an explicit read on its own: whatever follows starts with an ordinary load
+                self.label("lone-load");
+                let e = if self.g.chance(1, 2) { Expr::var(&hv(self.g)) } else { Expr::Lv(LValue::Deref(hr(self.g))) };
+                let mut v = vec![Stmt::Load(e)];
+                if !ord.is_empty() && self.g.chance(2, 3) {
+                    let t = self.g.pick(&ord).clone();
+                    let rhs = if self.g.chance(1, 2) { Expr::lit(self.g.range(0, 200) as i32) } else { Expr::var(&self.g.pick(&ord).clone()) };
+                    if rhs != Expr::var(&t) {
+                        v.push(Stmt::Expr(Expr::assign(LValue::Var(t), rhs)));
+                    }
+                }
+                v
+            }
+            14 if !ord.is_empty() => {
+                // an explicit write right after ordinary code (the stored value is unspecified,
+                // the access itself must happen)
+                self.label("store-after-ordinary");
+                let t = self.g.pick(&ord).clone();
+                let k = self.g.range(0, 200) as i32;
+                let target = if self.g.chance(1, 2) { LValue::Var(hv(self.g)) } else { LValue::Deref(hr(self.g)) };
+                vec![Stmt::Expr(Expr::assign(LValue::Var(t), Expr::lit(k))), Stmt::Store(target)]
+            }
             0..=2 => {
                 self.label("csleep");
                 vec![Stmt::Csleep(sleep(self.g))]
